@@ -248,7 +248,7 @@ example : accepts .double (asc "+INF") = true ∧ accepts .double (asc "+Inf") =
 theorem time_layouts_modelled (T : TimeTy) (f : TimeFact) (hf : timeFactOK T f = true) (s : Bytes) :
     mapTime f s ≠ .error .unmodelled := by
   simp only [timeFactOK, Bool.and_eq_true, List.all_eq_true, Bool.not_eq_true'] at hf
-  obtain ⟨⟨⟨⟨_, _⟩, hl⟩, _⟩, _⟩ := hf
+  obtain ⟨⟨⟨⟨⟨_, _⟩, hl⟩, _⟩, _⟩, _⟩ := hf
   unfold mapTime
   have : (f.layouts.any fun l => (layoutToks l).contains .unknown) = false := by
     rw [List.any_eq_false]
